@@ -44,7 +44,7 @@ package main
 //   - "quit test as a method".  `func (r *T) closed() bool { select { case <-r.quit: return true; default: return false } }`
 //     is the non-blocking test of the canonical first statement `select { case <-quit: return; default: … }`.  Accepted
 //     as checksQuit: `for !r.closed() { … }` when the `for` is the last statement of the function (leaving the loop is
-//     returning) and `if r.closed() { return }` as the first statement of the loop body.  The method must have exactly
+//     returning; one `return …` may follow it) and `if r.closed() { return … }` as the first statement of the loop body.  The method must have exactly
 //     that body: a receive without `default` would block, other results would invert the test.
 
 import (
@@ -90,6 +90,48 @@ func sfOwnMethod(c *ast.CallExpr, in *ast.FuncDecl, fs pkgFuncs) (string, bool) 
 	key := typ + "." + sel.Sel.Name
 	_, ok = fs[key]
 	return key, ok
+}
+
+// sfStartsGoroutine: the body contains a `go` statement, or calls (by plain name, or on its own receiver) a function of
+// the package that does, at most four deep
+func sfStartsGoroutine(fd *ast.FuncDecl, fs pkgFuncs, depth int) bool {
+	found := false
+	ast.Inspect(fd.Body, func(m ast.Node) bool {
+		switch x := m.(type) {
+		case *ast.GoStmt:
+			found = true
+		case *ast.CallExpr:
+			if depth >= 4 {
+				return true
+			}
+			if key, ok := sfOwnMethod(x, fd, fs); ok && sfStartsGoroutine(fs[key], fs, depth+1) {
+				found = true
+			}
+			if id, ok := x.Fun.(*ast.Ident); ok {
+				if g, ok := fs[id.Name]; ok && g != fd && sfStartsGoroutine(g, fs, depth+1) {
+					found = true
+				}
+			}
+		}
+		return !found
+	})
+	return found
+}
+
+// sfLoopIsTail: the `for` is the last statement of the function, or only one `return …` follows it: leaving the loop
+// is returning from the function
+func sfLoopIsTail(fd *ast.FuncDecl, x *ast.ForStmt) bool {
+	l := fd.Body.List
+	for i, st := range l {
+		if st == ast.Stmt(x) {
+			if i == len(l)-1 {
+				return true
+			}
+			_, isRet := l[i+1].(*ast.ReturnStmt)
+			return i == len(l)-2 && isRet
+		}
+	}
+	return false
 }
 
 // sfClosedTest: the body is exactly `select { case <-X: return true; default: return false }` (normalisation "quit test
@@ -393,12 +435,12 @@ func serverFacts(repo string) (string, any, error) {
 						return ok && sfClosedTest(fs[key])
 					}
 					if ue, ok := x.Cond.(*ast.UnaryExpr); ok && ue.Op == token.NOT && x.Init == nil && x.Post == nil &&
-						isClosedCall(ue.X) && fd.Body.List[len(fd.Body.List)-1] == ast.Stmt(x) {
+						isClosedCall(ue.X) && sfLoopIsTail(fd, x) {
 						lp.ChecksQuit = true
 					}
 					if len(x.Body.List) > 0 {
 						if is, ok := x.Body.List[0].(*ast.IfStmt); ok && is.Init == nil && is.Else == nil && isClosedCall(is.Cond) && len(is.Body.List) == 1 {
-							if r, ok := is.Body.List[0].(*ast.ReturnStmt); ok && len(r.Results) == 0 {
+							if _, ok := is.Body.List[0].(*ast.ReturnStmt); ok {
 								lp.ChecksQuit = true
 							}
 						}
@@ -482,13 +524,7 @@ func serverFacts(repo string) (string, any, error) {
 							}
 						case *ast.CallExpr:
 							if key, ok := sfOwnMethod(s, fd, fs); ok {
-								hasGo := false
-								ast.Inspect(fs[key].Body, func(m ast.Node) bool {
-									if _, ok := m.(*ast.GoStmt); ok {
-										hasGo = true
-									}
-									return true
-								})
+								hasGo := sfStartsGoroutine(fs[key], fs, 0)
 								if hasGo {
 									ferr = fmt.Errorf("%s: %s, called from the receive loop, starts a goroutine: spawns inside a helper of the loop are not followed", fset.Position(s.Pos()), key)
 									return false
